@@ -10,6 +10,8 @@ from __future__ import annotations
 
 import ast
 
+from fractions import Fraction
+
 from .. import nf
 from ..model import AnalysisError
 from ..values import ExtObj, Num
@@ -88,6 +90,22 @@ def check(ctx):
             ok, "C06-c", GAS + "z_factor_DAK:bracket", f"{f.file}:{ev.line}",
             "the bracket is [c1, c2] * 0.27 pr/Tr with constants 0 < c1 < 1 < c2 (it contains the ideal-gas density, Z = 1)",
             signature="bracket", lower=nf.show(lo), upper=nf.show(hi),
+        )
+    # ---- C06-k solver tolerances: the returned Z "satisfies the equation" only as well as the solve is tight
+    if callee in BRACKETING:
+        loose = []
+        for kw, limit in (("xtol", Fraction(1, 10**9)), ("rtol", Fraction(1, 10**9))):
+            v = a.get(kw)
+            if v is not None and isinstance(v, Num):
+                if not nf.is_const(v.nf) or nf.cval(v.nf) > limit:
+                    loose.append(f"{kw}={nf.show(v.nf, 30)}")
+        v = a.get("maxiter")
+        if v is not None and isinstance(v, Num) and (not nf.is_const(v.nf) or nf.cval(v.nf) < 50):
+            loose.append(f"maxiter={nf.show(v.nf, 30)}")
+        ctx.check(
+            not loose, "C06-k", GAS + "z_factor_DAK:solver tolerances", f"{f.file}:{ev.line}",
+            "the bracketing solve keeps (default or explicit) absolute and relative tolerances of at most 1e-9 on the reduced density and at least 50 iterations: the returned Z satisfies the equation to rounding level",
+            signature="loose " + ",".join(loose), given={k: nf.show(a[k].nf, 30) for k in ("xtol", "rtol", "maxiter") if isinstance(a.get(k), Num)},
         )
     from .c19 import check_builder
 
